@@ -22,7 +22,7 @@ func runC01(w *World) {
 	if w.Tier == "thorough" {
 		maxPeers = 4
 	}
-	ch := NewChaos(w, ChaosOpts{MaxPeers: maxPeers, Churn: true, Deviations: true})
+	ch := NewChaos(w, ChaosOpts{MaxPeers: maxPeers, Churn: true, Deviations: true, FreeWriters: true})
 	if ch == nil {
 		return
 	}
